@@ -133,3 +133,76 @@ Theorem C01_wf_needed_refuted :
    spec_bin (BRel 32 Eq) (modN 32 18446744073709551615) (modN 32 4294967295) = Some 1).
 Proof. exact wf_needed_refuted. Qed.
 Print Assumptions C01_wf_needed_refuted.
+
+(* ================================================================ against the specification itself, for VALIDATED programs
+   The typing hypothesis of C01_slot_machine_refines_spec_partial is discharged by the type system of
+   Wasm/Validate.v (an executable checker for W's instructions over a typed mirror syntax; [erase] forgets the
+   block types) and its soundness proof Proofs/ValidateP.v: exec_sound shows, by one induction on the fuel, that
+   a validated program started in a validated store from a well-typed frame keeps every value well-formed at its
+   static type AND that any domain whose operators agree with the specification's on typed operands
+   (C01_guarded_spec_is_spec_on_typed_operands: SpecG is one) runs it in lock step with Spec. *)
+From Verif Require Import Wasm.Validate Proofs.ValidateP Proofs.ValidateSlotsP.
+
+(* on validated programs the completed specification SpecG and the specification Spec coincide:
+   same outcome kind, equal values, stores and logs, for every fuel *)
+Theorem C01_guarded_spec_is_spec_on_validated :
+  forall (host : nat -> list Z -> hostres Z) listened maxdepth (T : tenv), host_ok host T ->
+  forall fuel depth ii (s : store Spec) stk lcs lt rt L tis st res,
+  store_ok T s -> check_seq T (the_inst Spec s ii) lt rt L tis (STy st) = Some res ->
+  Forall2 wfv st stk -> Forall2 wfv lt lcs ->
+  out_rel SpecG Spec (fun (a : val SpecG) (b : val Spec) => a = b) (store_eq (fun (a : val SpecG) (b : val Spec) => a = b))
+    (exec SpecG host listened maxdepth fuel depth ii (cs specg_un specg_bin s) (Build_frame SpecG stk lcs) (map erase tis))
+    (exec Spec host listened maxdepth fuel depth ii s (Build_frame Spec stk lcs) (map erase tis)).
+Proof. exact guarded_spec_is_spec_on_validated. Qed.
+Print Assumptions C01_guarded_spec_is_spec_on_validated.
+
+(* the slot machine (operators REGENERATED from interpreter.go / compiler.go) refines the SPECIFICATION on every
+   validated program: [store_ok T s2] (the store's code is the erasure of T's typed functions and passes the
+   checker), the code [tis] checks against the frame's stack type [st] and local types [lt], the Spec frame is
+   well-typed, hosts return well-formed values of their declared types; then slot machine and specification end
+   in the same outcome kind with equal result slots, globals, memories, tables and event log, for every fuel.
+   No hypothesis about SpecG is left. *)
+Theorem C01_slot_machine_refines_spec :
+  forall (host : nat -> list Z -> hostres Z) listened maxdepth (T : tenv), host_ok host T ->
+  forall fuel depth ii (s1 : store Slot) (s2 : store Spec) (f1 : frame Slot) (f2 : frame Spec) lt rt L tis st res,
+  store_ok T s2 -> check_seq T (the_inst Spec s2 ii) lt rt L tis (STy st) = Some res ->
+  Forall2 wfv st (stack f2) -> Forall2 wfv lt (locals f2) ->
+  store_eq (fun (a : val Slot) (b : val Spec) => a = b) s1 s2 ->
+  Rf Slot Spec (fun (a : val Slot) (b : val Spec) => a = b) f1 f2 ->
+  out_rel Slot Spec (fun (a : val Slot) (b : val Spec) => a = b) (store_eq (fun (a : val Slot) (b : val Spec) => a = b))
+    (exec Slot host listened maxdepth fuel depth ii s1 f1 (map erase tis))
+    (exec Spec host listened maxdepth fuel depth ii s2 f2 (map erase tis)).
+Proof. exact slot_machine_refines_spec. Qed.
+Print Assumptions C01_slot_machine_refines_spec.
+
+(* non-vacuity: a concrete validated multi-function program (loop, call, call_indirect, memory, globals, host call)
+   satisfies every hypothesis of the theorem, for every fuel *)
+Theorem C01_slot_machine_refines_spec_instance :
+  valid_storeb ex_T ex_store = true /\ host_ok ex_host ex_T /\
+  forall fuel,
+  out_rel Slot Spec (fun (a : val Slot) (b : val Spec) => a = b) (store_eq (fun (a : val Slot) (b : val Spec) => a = b))
+    (exec Slot ex_host (fun _ => true) 10 fuel 0 0 ex_store_slot (Build_frame Slot [] []) (map erase [TCall 1; TDrop; TDrop]))
+    (exec Spec ex_host (fun _ => true) 10 fuel 0 0 ex_store (Build_frame Spec [] []) (map erase [TCall 1; TDrop; TDrop])).
+Proof. exact (conj ex_valid (conj ex_host_ok ex_slot_refines)). Qed.
+Print Assumptions C01_slot_machine_refines_spec_instance.
+
+(* the same at the level of EXPORTED CALLS, which is what the correspondence run observes: on a validated store,
+   a call with well-typed arguments gives the same result slots / the same trap on the slot machine and in the
+   specification, and leaves equal stores (so the statement chains along a history of calls) *)
+Theorem C01_slot_machine_refines_spec_calls :
+  forall (host : nat -> list Z -> hostres Z) listened maxdepth (T : tenv), host_ok host T ->
+  forall fuel (s1 : store Slot) (s2 : store Spec) fa fd (args : list Z),
+  store_ok T s2 -> nth_error (t_funcs T) fa = Some fd -> Forall2 wfv (fst (tsig fd)) args ->
+  store_eq (fun (a : val Slot) (b : val Spec) => a = b) s1 s2 ->
+  store_eq (fun (a : val Slot) (b : val Spec) => a = b)
+    (fst (call_export Slot host listened maxdepth fuel s1 fa args))
+    (fst (call_export Spec host listened maxdepth fuel s2 fa args)) /\
+  match snd (call_export Slot host listened maxdepth fuel s1 fa args),
+        snd (call_export Spec host listened maxdepth fuel s2 fa args) with
+  | RVals a, RVals b => a = b
+  | RTrap t, RTrap u => t = u
+  | RFuel, RFuel => True
+  | _, _ => False
+  end.
+Proof. exact slot_call_export_refines_spec. Qed.
+Print Assumptions C01_slot_machine_refines_spec_calls.
